@@ -738,6 +738,7 @@ pub fn snapshot_text(env: &mut Env<VS>) -> String {
         }
     }
     lines.push(format!("arg0={}", env.arg0));
+    lines.push(format!("ttyfg={:?}", world_state().borrow().foreground.map(|p| p.0)));
     lines.push(format!("status={}", env.exit_status.0));
     lines.push(format!("jobs={}", env.jobs.len()));
     lines.push(format!("lastasync={}", env.jobs.last_async_pid().0));
